@@ -356,7 +356,7 @@ def check_property(prop, tier='quick', seed=0, only=None, verbose=False):
             obid = '%s/%s' % (cname, e[0])
             kf = match_known(known, prop, cname, e[0], x.get('values', {}))
             if kf:
-                known_hits.append((kf, obid))
+                known_hits.append((kf, obid + ' [sampled]'))
                 continue
             replay_path = os.path.join(VERIF_ROOT, 'replays', prop, '%s.%s.sample.json' % (cname, e[0].replace('/', '_')))
             json.dump({'property': prop, 'contract': cname, 'obligation': e[0], 'class': e[1], 'values': x.get('values'), 'native': x,
@@ -389,7 +389,7 @@ def check_property(prop, tier='quick', seed=0, only=None, verbose=False):
             obid = '%s/%s' % (c.name, e[0])
             kf = match_known(known, prop, c.name, e[0], x.get('values', {}))
             if kf:
-                known_hits.append((kf, obid))
+                known_hits.append((kf, obid + ' [sampled]'))
                 continue
             replay_path = os.path.join(VERIF_ROOT, 'replays', prop, '%s.%s.sample.json' % (c.name, e[0].replace('/', '_')))
             json.dump({'property': prop, 'contract': c.name, 'obligation': e[0], 'class': e[1], 'values': x.get('values'), 'native': x,
@@ -434,8 +434,8 @@ def check_property(prop, tier='quick', seed=0, only=None, verbose=False):
     assumptions = sorted(set(a for r in results for a in r['assumptions']))
     bounded = [{'contract': r['contract'], 'bound': r['bounded']} for r in results if r['bounded']] + standin_info
     cover = {
-        'obligations': n_obl - len(known_hits), 'discharged': n_dis,
-        'obligations_failing_as_listed_known_findings': len(known_hits),
+        'obligations': n_obl - len([1 for _, o in known_hits if not o.endswith(' [sampled]')]), 'discharged': n_dis,
+        'obligations_failing_as_listed_known_findings': len([1 for _, o in known_hits if not o.endswith(' [sampled]')]),
         'checker_cmd': './vcheck %s %s' % (prop, tier),
         'trusted_base': ['pyvc AST interpreter / VC generator (this directory)', 'z3 5.1.0 (python3-vt)', '/usr/bin/cvc5 1.0.3 (fallback)',
                          'CPython 3.12 semantics of the modelled constructs (sampled by per-path concordance)',
